@@ -403,3 +403,18 @@ Theorem C02_sizedb_emitted_acyclic :
      (forall n p, ~ walk (item_edge s m) n p p) /\ by_value_acyclicb r s = true).
 Proof. exact sizedb_emitted_acyclic. Qed.
 Print Assumptions C02_sizedb_emitted_acyclic.
+
+(** ** DESIGN 3.1 clause 9 ("sized") as a boolean (Model/SizedMono.v, Proofs/SizedMonoProofs.v):
+    [mono_edge r s a b] is the MONOMORPHIC by-value graph on registry ids (the fields of an
+    item-eligible entry that the generator does not box; the by-value parameters of [Option] /
+    [Result] / [Range] / [RangeInclusive] / [Cow] entries; tuple, array, compact components; generic
+    parameters are NOT cut).  [mono_acyclicb] decides its acyclicity.  Decision theorem only: no
+    statement here relates it to the generated code (it is the condition under which no cycle
+    exists between INSTANTIATED generated types; that needs the instantiation semantics of
+    generated generic items).  On the example registries it agrees with [sizedb], also on the one
+    with a cycle only after instantiation ([sz_mono_agrees]). *)
+From V Require Import Model.SizedMono Proofs.SizedMonoProofs.
+Theorem C02_mono_acyclicb_iff :
+  forall r s, mono_acyclicb r s = true <-> (forall n a, ~ walk (mono_edge r s) n a a).
+Proof. exact mono_acyclicb_iff. Qed.
+Print Assumptions C02_mono_acyclicb_iff.
